@@ -5,15 +5,16 @@ import RtenVerif.Lemmas.ExecutorStepMain
 namespace RtenVerif.Executor
 open RtenVerif.Graph
 
-/-- The plan loop against the naive loop. -/
-theorem runSteps_refines {V : Type} {ops : Ops V} {r : Run V} {total : Nat → Nat}
-    {outs : List Nat} (hwf : WF r) (hcap : r.g.captures = []) (hct : Contract ops r.g) :
-    ∀ (plan : List Nat) (st : St V) (E : Nat → Option V), Sim r total plan outs st E →
-      match (runSteps ops r st plan).1 with
-      | .ok st' => ∃ E', naiveSteps ops r nocap E plan = .ok E' ∧ Sim r total [] outs st' E'
-      | .error e => naiveSteps ops r nocap E plan = .error e := by
-  intro plan
-  induction plan with
+/-- The plan loop against the naive loop, for any prefix `pre` of the plan. -/
+theorem runSteps_refines_prefix {V : Type} {ops : Ops V} {r : Run V} {total : Nat → Nat}
+    {outs : List Nat} (hwf : WF r) (hcap : r.g.captures = []) (hct : Contract ops r.g)
+    (rest : List Nat) :
+    ∀ (pre : List Nat) (st : St V) (E : Nat → Option V), Sim r total (pre ++ rest) outs st E →
+      match (runSteps ops r st pre).1 with
+      | .ok st' => ∃ E', naiveSteps ops r nocap E pre = .ok E' ∧ Sim r total rest outs st' E'
+      | .error e => naiveSteps ops r nocap E pre = .error e := by
+  intro pre
+  induction pre with
   | nil => intro st E hs; exact ⟨E, rfl, hs⟩
   | cons i is ih =>
     intro st E hs
@@ -30,6 +31,16 @@ theorem runSteps_refines {V : Type} {ops : Ops V} {r : Run V} {total : Nat → N
       obtain ⟨E1, hE1, hs1⟩ := hstep
       simp only [hE1]
       exact ih st1 E1 hs1
+
+/-- The plan loop against the naive loop. -/
+theorem runSteps_refines {V : Type} {ops : Ops V} {r : Run V} {total : Nat → Nat}
+    {outs : List Nat} (hwf : WF r) (hcap : r.g.captures = []) (hct : Contract ops r.g) :
+    ∀ (plan : List Nat) (st : St V) (E : Nat → Option V), Sim r total plan outs st E →
+      match (runSteps ops r st plan).1 with
+      | .ok st' => ∃ E', naiveSteps ops r nocap E plan = .ok E' ∧ Sim r total [] outs st' E'
+      | .error e => naiveSteps ops r nocap E plan = .error e := by
+  intro plan st E hs
+  exact runSteps_refines_prefix hwf hcap hct [] plan st E (by rw [List.append_nil]; exact hs)
 
 theorem isValue_of_voc {g : Graph} {v : Nat} (h1 : isValueOrConstant g v = true)
     (h2 : isConstant g v = false) : isValue g v = true := by
